@@ -290,6 +290,17 @@ func Library() []*Session {
 				sim.NewTx(sim.TGetMsgs, 0),
 				sim.NewTx(sim.TChatSend, 0, sim.Fld(sim.FData, []byte("x"))))
 		}},
+		{Name: "cbound", Conn: "control", Cls: "control", Ones: false, Control: func() []part {
+			// field areas that end exactly at the field scanner's buffer sizes (4096, 8192) with a trailing empty
+			// field, and one whose last field header straddles 4096: Transaction.Write splits the field area with a
+			// bufio.Scanner of its own, whatever the segmentation of the connection
+			return control(loginOld("guest", "", "Bound"),
+				sim.NewTx(sim.TChatSend, 0, sim.Fld(sim.FData, text(4088, 7)), sim.Fld(sim.FChatOptions, nil)),
+				sim.NewTx(sim.TOldPostNews, 0, sim.Fld(sim.FData, text(8184, 8)), sim.Fld(sim.FOptions, nil)),
+				sim.NewTx(sim.TChatSend, 0, sim.Fld(sim.FData, text(4086, 9)), sim.Fld(sim.FChatOptions, sim.U16(0))),
+				sim.NewTx(sim.TGetMsgs, 0),
+				sim.NewTx(sim.TKeepAlive, 0))
+		}},
 		{Name: "cmany", Conn: "control", Cls: "control", Ones: true, Control: func() []part {
 			return control(loginOld("guest", "", "Many"), many...)
 		}},
